@@ -10,6 +10,10 @@ pub use ioread::*;
 mod sliceread;
 pub use sliceread::*;
 
+/// Upper bound of the allocation made before any of the requested bytes are
+/// known to be available
+pub(crate) const READ_CHUNK_SIZE: usize = 64 * 1024;
+
 mod private {
     pub trait Sealed {}
 }
@@ -48,8 +52,16 @@ pub trait Read<'de>: private::Sealed {
 
     /// Consuming `n` number of bytes
     fn read_bytes(&mut self, n: usize) -> Result<Vec<u8>, io::Error> {
-        let mut buf = vec![0u8; n];
-        self.read_exact(&mut buf)?;
+        // `n` usually comes from a length field of untrusted input. Grow the
+        // buffer only as the bytes actually arrive instead of allocating `n`
+        // bytes up front.
+        let mut buf = Vec::with_capacity(n.min(READ_CHUNK_SIZE));
+        while buf.len() < n {
+            let start = buf.len();
+            let end = n.min(start + READ_CHUNK_SIZE);
+            buf.resize(end, 0);
+            self.read_exact(&mut buf[start..end])?;
+        }
         Ok(buf)
     }
 
